@@ -5,12 +5,22 @@ no spurious failure, repo.json = installed packages.
 -/
 namespace Share
 
-/-- the invariant of the patched code (`ff = true`) started on a store whose repo.json exists; `L` is the logical
-content of repo.json (what is on disk, or what the moving gc holds while the file is rewritten) -/
+local notation "fx" => (Cfg.mk true true true true)
+
+/-- repo.json as the fixed code reads it: a missing or empty file is an empty repository -/
+def logicalOf : RepoFile → List (Bid × Nat)
+  | .valid l => l
+  | _ => []
+
+theorem readRepo_fx {r : RepoFile} (h : r ≠ .absent) : readRepo fx r = some (logicalOf r) := by
+  cases r <;> first | rfl | exact absurd rfl h
+
+/-- the invariant of the fixed code; `L` is the logical content of repo.json (what a reader under the lock gets from
+the disk - nothing if the file is missing or empty -, or what the moving gc holds while the file is rewritten) -/
 structure InvFF (s : St) (L : List (Bid × Nat)) : Prop where
   mutex : Mutex s
   pcs : ∀ (i : Nat) (pi : Proc), s.procs[i]? = some pi → PcFF pi.pc ∧ GcWf pi.pc ∧ TmpOk pi.prog pi.pc
-  repoOk : (s.g.repo = .valid L ∧ ∀ (i : Nat) (pi : Proc) (rm : List (Bid × Nat)), s.procs[i]? = some pi →
+  repoOk : (logicalOf s.g.repo = L ∧ ∀ (i : Nat) (pi : Proc) (rm : List (Bid × Nat)), s.procs[i]? = some pi →
               pi.pc.rmeta = some rm → rm = L ∧ pi.pc.dirty = false)
          ∨ (s.g.repo = .torn ∧ ∃ (i : Nat) (pi : Proc), s.procs[i]? = some pi ∧ pi.pc.rmeta = some L ∧ pi.pc.dirty = true)
   nodup : (keys L).Nodup
@@ -39,7 +49,7 @@ exclusive section or the window -/
 theorem invFF_silent (s : St) (L : List (Bid × Nat)) (p : Nat) (pr : Proc) (g' : Store) (pc' : Pc) (pub' : Bool)
     (inv : InvFF s L) (hpr : s.procs[p]? = some pr)
     (hmx : Mutex ⟨g', s.procs.set p { pr with pc := pc', pub := pub' }⟩)
-    (hrepo : g'.repo = s.g.repo) (hfin : FinalQuiet s.g g')
+    (hrepo : g'.repo = s.g.repo ∨ (s.g.repo = .absent ∧ g'.repo = .torn)) (hfin : FinalQuiet s.g g')
     (hrm : pr.pc.rmeta = none) (hrm' : pc'.rmeta = none) (hwin : pc'.inWindow = pr.pc.inWindow)
     (hpcs : PcFF pc' ∧ GcWf pc' ∧ TmpOk pr.prog pc') :
     InvFF ⟨g', s.procs.set p { pr with pc := pc', pub := pub' }⟩ L := by
@@ -67,13 +77,20 @@ theorem invFF_silent (s : St) (L : List (Bid × Nat)) (p : Nat) (pr : Proc) (g' 
     · exact inv.pcs i pi hi'
   · rcases inv.repoOk with ⟨hv, hall⟩ | ⟨ht, i, pi, hi, hrmi, hdi⟩
     · left
-      refine ⟨by rw [hrepo]; exact hv, ?_⟩
+      refine ⟨?_, ?_⟩
+      · rcases hrepo with h | ⟨h1, h2⟩
+        · rw [h]; exact hv
+        · rw [h2]; rw [h1] at hv; exact hv
       intro i pi rm hi hr
       rcases getElem?_set_cases hi with ⟨rfl, rfl, _⟩ | ⟨_, hi'⟩
       · simp only at hr; rw [hrm'] at hr; cases hr
       · exact hall i pi rm hi' hr
     · right
-      refine ⟨by rw [hrepo]; exact ht, i, pi, ?_, hrmi, hdi⟩
+      have hrepo' : g'.repo = s.g.repo := by
+        rcases hrepo with h | ⟨h1, _⟩
+        · exact h
+        · rw [ht] at h1; cases h1
+      refine ⟨by rw [hrepo']; exact ht, i, pi, ?_, hrmi, hdi⟩
       have : i ≠ p := by
         intro e; subst e
         rw [hpr] at hi; cases hi
@@ -199,15 +216,17 @@ theorem invFF_add (s : St) (L : List (Bid × Nat)) (p : Nat) (pr : Proc) (g' : S
     (inv : InvFF s L) (hpr : s.procs[p]? = some pr) (hpc : pr.pc = .iAddLock)
     (hnoEX : ∀ (i : Nat) (pi : Proc), s.procs[i]? = some pi → i ≠ p → pi.pc.holdsEX = false)
     (hfin : g'.final = s.g.final)
-    (hrepo : ∀ l, s.g.repo = .valid l → g'.repo = .valid (setPkg l (opBid pr.prog) (opSize pr.prog)))
+    (hna : s.g.repo ≠ .absent)
+    (hrepo : ∀ l, readRepo fx s.g.repo = some l → g'.repo = .valid (setPkg l (opBid pr.prog) (opSize pr.prog)))
     (hpc' : PcFF pc' ∧ GcWf pc' ∧ TmpOk pr.prog pc') (hrm' : pc'.rmeta = none) (hw' : pc'.inWindow = false)
     (hmx : Mutex ⟨g', s.procs.set p { pr with pc := pc', pub := pub' }⟩) :
     InvFF ⟨g', s.procs.set p { pr with pc := pc', pub := pub' }⟩ (setPkg L (opBid pr.prog) (opSize pr.prog)) := by
   have hwp : pr.pc.inWindow = true := by rw [hpc]; rfl
   obtain ⟨hbL, d0, m0, hd0, hm0, hs0⟩ := inv.window p pr hpr hwp
-  have hvalid : s.g.repo = .valid L := by
+  have hvalid : readRepo fx s.g.repo = some L := by
+    rw [readRepo_fx hna]
     rcases inv.repoOk with ⟨hv, _⟩ | ⟨_, i, pi, hi, hrmi, _⟩
-    · exact hv
+    · rw [hv]
     · exfalso
       have hex := Pc.holdsEX_of_rmeta hrmi
       have : i ≠ p := by
@@ -221,7 +240,7 @@ theorem invFF_add (s : St) (L : List (Bid × Nat)) (p : Nat) (pr : Proc) (g' : S
     · exact hpc'
     · exact inv.pcs i pi hi'
   · left
-    refine ⟨hrepo L hvalid, ?_⟩
+    refine ⟨by rw [hrepo L hvalid]; rfl, ?_⟩
     intro i pi rm hi hr
     rcases getElem?_set_cases hi with ⟨rfl, rfl, _⟩ | ⟨hip, hi'⟩
     · simp only at hr; rw [hrm'] at hr; cases hr
@@ -269,7 +288,7 @@ theorem invFF_add (s : St) (L : List (Bid × Nat)) (p : Nat) (pr : Proc) (g' : S
 repo.json if it was being rewritten) -/
 theorem invFF_gc_quiet (s : St) (L : List (Bid × Nat)) (p : Nat) (pr : Proc) (g' : Store) (pc' : Pc) (pub' : Bool)
     (inv : InvFF s L) (hpr : s.procs[p]? = some pr)
-    (hfin : g'.final = s.g.final) (hrepo : g'.repo = .valid L)
+    (hfin : g'.final = s.g.final) (hrepo : logicalOf g'.repo = L)
     (hothers : ∀ (i : Nat) (pi : Proc) (rm : List (Bid × Nat)), i ≠ p → s.procs[i]? = some pi → pi.pc.rmeta = some rm →
       rm = L ∧ pi.pc.dirty = false)
     (hrm' : ∀ rm, pc'.rmeta = some rm → rm = L ∧ pc'.dirty = false)
@@ -338,7 +357,7 @@ theorem invFF_move (s : St) (L : List (Bid × Nat)) (p : Nat) (pr : Proc) (g' : 
     · exact inv.pcs i pi hi'
   · rcases hrepo with ⟨hv, hn⟩ | ⟨ht, hr, hd⟩
     · left
-      refine ⟨hv, ?_⟩
+      refine ⟨by rw [hv]; rfl, ?_⟩
       intro i pi rm hi hr
       rcases getElem?_set_cases hi with ⟨rfl, rfl, _⟩ | ⟨hip, hi'⟩
       · simp only at hr; rw [hn] at hr; cases hr
@@ -379,26 +398,28 @@ theorem invFF_move (s : St) (L : List (Bid × Nat)) (p : Nat) (pr : Proc) (g' : 
       · simp only at hwj; rw [hw'] at hwj; cases hwj
       · exact inv.uniq i j pi pj hi' hj' hwi hwj hb
 
-theorem stepPc_iRename_none (H : Nat → Nat) (ff : Bool) (prog : Prog) (exO shO : Bool) (g : Store) (tmp : PkgDir)
+theorem stepPc_iRename_none (H : Nat → Nat) (cfg : Cfg) (prog : Prog) (exO shO : Bool) (g : Store) (tmp : PkgDir)
     (hf : g.final (opBid prog) = none) :
-    stepPc H ff prog exO shO g (.iRename tmp) =
+    stepPc H cfg prog exO shO g (.iRename tmp) =
       ({ g with final := upd g.final (opBid prog) (some tmp),
                 nInst := upd g.nInst (opBid prog) (g.nInst (opBid prog) + 1) }, .iAddOpen) := by
   unfold stepPc; simp [hf]
 
-theorem stepPc_iAddLock_ok (H : Nat → Nat) (prog : Prog) (g : Store) (l : List (Bid × Nat)) (hr : g.repo = .valid l) :
-    stepPc H true prog false false g .iAddLock =
+theorem stepPc_iAddLock_ok (H : Nat → Nat) (prog : Prog) (g : Store) (l : List (Bid × Nat))
+    (hr : readRepo fx g.repo = some l) :
+    stepPc H fx prog false false g .iAddLock =
       ({ g with repo := .valid (setPkg l (opBid prog) (opSize prog)) },
        .iAddClose none (sumSizes (setPkg l (opBid prog) (opSize prog))) false) := by
   unfold stepPc; simp [hr]
 
-theorem stepPc_gLock_ok (H : Nat → Nat) (ff : Bool) (prog : Prog) (g : Store) (l : List (Bid × Nat)) (hr : g.repo = .valid l) :
-    stepPc H ff prog false false g .gLock = gcNext prog g l l [] 0 := by
+theorem stepPc_gLock_ok (H : Nat → Nat) (cfg : Cfg) (prog : Prog) (g : Store) (l : List (Bid × Nat))
+    (hr : readRepo cfg g.repo = some l) :
+    stepPc H cfg prog false false g .gLock = gcNext prog g l l [] 0 := by
   unfold stepPc; simp [hr]
 
-theorem stepPc_scan_fst (H : Nat → Nat) (ff : Bool) (prog : Prog) (exO shO : Bool) (g : Store) (pc : Pc)
+theorem stepPc_scan_fst (H : Nat → Nat) (cfg : Cfg) (prog : Prog) (exO shO : Bool) (g : Store) (pc : Pc)
     (h : (∃ rm todo c t, pc = .gScanOpen rm todo c t) ∨ (∃ rm k sz rest c t, pc = .gScanLock rm k sz rest c t)) :
-    (stepPc H ff prog exO shO g pc).1 = g := by
+    (stepPc H cfg prog exO shO g pc).1 = g := by
   rcases h with ⟨rm, todo, c, t, rfl⟩ | ⟨rm, k, sz, rest, c, t, rfl⟩
   · unfold stepPc; simp only
     repeat' split
@@ -410,9 +431,9 @@ theorem stepPc_scan_fst (H : Nat → Nat) (ff : Bool) (prog : Prog) (exO shO : B
 theorem stepPc_gMove_leave (H : Nat → Nat) (prog : Prog) (exO shO : Bool) (g : Store)
     (rm : List (Bid × Nat)) (plan : List Cand) (t : Nat) (d te : Bool)
     (hf : ∀ c rest, plan = c :: rest → g.final c.bid = none) :
-    (stepPc H true prog exO shO g (.gMove rm plan t d te)).1.final = g.final ∧
-    (stepPc H true prog exO shO g (.gMove rm plan t d te)).1.repo = (if d then .valid rm else g.repo) ∧
-    ∃ r, (stepPc H true prog exO shO g (.gMove rm plan t d te)).2 = .gClose none r := by
+    (stepPc H fx prog exO shO g (.gMove rm plan t d te)).1.final = g.final ∧
+    (stepPc H fx prog exO shO g (.gMove rm plan t d te)).1.repo = (if d then .valid rm else g.repo) ∧
+    ∃ r, (stepPc H fx prog exO shO g (.gMove rm plan t d te)).2 = .gClose none r := by
   unfold stepPc; simp only
   cases plan with
   | nil => cases d <;> simp
@@ -421,32 +442,145 @@ theorem stepPc_gMove_leave (H : Nat → Nat) (prog : Prog) (exO shO : Bool) (g :
 theorem stepPc_gMove_move (H : Nat → Nat) (prog : Prog) (exO shO : Bool) (g : Store)
     (rm : List (Bid × Nat)) (c : Cand) (rest : List Cand) (t : Nat) (d te : Bool) (dd : PkgDir)
     (hf : g.final c.bid = some dd) :
-    (stepPc H true prog exO shO g (.gMove rm (c :: rest) t d te)).1.final = upd g.final c.bid none ∧
-    (((stepPc H true prog exO shO g (.gMove rm (c :: rest) t d te)).1.repo = .valid (erasePkg rm c.bid) ∧
-        ∃ r, (stepPc H true prog exO shO g (.gMove rm (c :: rest) t d te)).2 = .gClose none r) ∨
-     ((stepPc H true prog exO shO g (.gMove rm (c :: rest) t d te)).1.repo = .torn ∧
-        (stepPc H true prog exO shO g (.gMove rm (c :: rest) t d te)).2 = .gMove (erasePkg rm c.bid) rest t true te)) := by
+    (stepPc H fx prog exO shO g (.gMove rm (c :: rest) t d te)).1.final = upd g.final c.bid none ∧
+    (((stepPc H fx prog exO shO g (.gMove rm (c :: rest) t d te)).1.repo = .valid (erasePkg rm c.bid) ∧
+        ∃ r, (stepPc H fx prog exO shO g (.gMove rm (c :: rest) t d te)).2 = .gClose none r) ∨
+     ((stepPc H fx prog exO shO g (.gMove rm (c :: rest) t d te)).1.repo = .torn ∧
+        (stepPc H fx prog exO shO g (.gMove rm (c :: rest) t d te)).2 = .gMove (erasePkg rm c.bid) rest t true te)) := by
   unfold stepPc; simp only [hf]
   cases rest with
   | nil => simp
   | cons c1 r2 => simp
 
-theorem invFF_step (H : Nat → Nat) (s : St) (L : List (Bid × Nat)) (p : Pid) (inv : InvFF s L) :
-    ∃ L', InvFF (step H true s p) L' := by
-  have hmx := mutex_step H true s p inv.mutex
-  rcases step_cases H true s p with ⟨_, e⟩ | ⟨pr, hpr, e⟩
+/-- program counters at which repo.json has been seen to exist -/
+def Pc.needsRepo : Pc → Bool
+  | .iAddLock | .gOpen | .gLock => true
+  | _ => false
+
+def RepoNA (s : St) : Prop :=
+  ∀ (i : Nat) (pi : Proc), s.procs[i]? = some pi → pi.pc.needsRepo = true → s.g.repo ≠ .absent
+
+/-- repo.json never disappears -/
+theorem stepPc_repo_na (H : Nat → Nat) (cfg : Cfg) (prog : Prog) (exO shO : Bool) (g : Store) (pc : Pc)
+    (h : g.repo ≠ .absent) : (stepPc H cfg prog exO shO g pc).1.repo ≠ .absent := by
+  rcases stepPc_repo H cfg prog exO shO g pc with e | ⟨_, _, _, l, _, e⟩ | ⟨_, e⟩ | hq | ⟨_, e, _⟩ | ⟨l, t, f, hq⟩ |
+      ⟨l, r, hq⟩ | ⟨rm, plan, t, d, te, hq⟩
+  · rw [e]; exact h
+  · rw [e]; split <;> simp
+  · exact absurd e h
+  · subst hq; unfold stepPc; simp only; repeat' split
+    all_goals first | exact h | simp
+  · exact absurd e h
+  · subst hq; unfold stepPc; simp only; repeat' split
+    all_goals first | (simp only [afterShare_fst, gcStart_fst]; simp) | simp
+  · subst hq; unfold stepPc; simp
+  · subst hq; unfold stepPc; simp only; repeat' split
+    all_goals first | exact h | simp
+
+@[simp] theorem needsRepo_afterShare {cfg : Cfg} (prog : Prog) (g : Store) (r : Res) : (afterShare cfg prog g r).2.needsRepo = false := by
+  rcases afterShare_pc (cfg := cfg) prog g r with ⟨_, h⟩ | ⟨_, h⟩ | ⟨_, h⟩ | h <;> rw [h] <;> rfl
+
+@[simp] theorem needsRepo_finishGc {cfg : Cfg} (prog : Prog) (g : Store) (r : Res) : (finishGc cfg prog g r).2.needsRepo = false := by
+  rcases finishGc_pc (cfg := cfg) prog g r with ⟨_, h⟩ | ⟨_, h⟩ | ⟨_, h⟩ | h <;> rw [h] <;> rfl
+
+theorem needsRepo_gcStart (prog : Prog) (g : Store) (h : (gcStart fx prog g).2.needsRepo = true) : g.repo ≠ .absent := by
+  unfold gcStart at h
+  split at h
+  · simp at h
+  · split at h
+    · simp at h
+    · rename_i hm
+      intro e
+      apply hm
+      simp [repoMissing, e]
+
+@[simp] theorem needsRepo_gcPlan (prog : Prog) (g : Store) (rm : List (Bid × Nat)) (c : List Cand) (t : Nat) :
+    (gcPlan prog g rm c t).2.needsRepo = false := by
+  unfold gcPlan; simp only; split <;> rfl
+
+@[simp] theorem needsRepo_gcNext (prog : Prog) (g : Store) (rm todo : List (Bid × Nat)) (c : List Cand) (t : Nat) :
+    (gcNext prog g rm todo c t).2.needsRepo = false := by
+  unfold gcNext; split
+  · simp
+  · rfl
+
+theorem stepPc_needsRepo_old (H : Nat → Nat) (prog : Prog) (exO shO : Bool) (g : Store) (pc : Pc)
+    (hpc : pc.needsRepo = true → g.repo ≠ .absent) (hpend : ∀ l t f, pc ≠ .iAddClose (some l) t f)
+    (h : (stepPc H fx prog exO shO g pc).2.needsRepo = true) : g.repo ≠ .absent := by
+  cases pc
+  case iAddLock => exact hpc rfl
+  case gOpen => exact hpc rfl
+  case gLock => exact hpc rfl
+  case iAddOpen =>
+    unfold stepPc at h; simp only at h
+    cases hr : g.repo with
+    | absent => rw [hr] at h; simp [Pc.needsRepo] at h
+    | torn => simp
+    | valid l => simp
+  case start =>
+    unfold stepPc at h; simp only at h
+    split at h
+    · simp [Pc.needsRepo] at h
+    · split at h
+      · simp at h
+      · split at h <;> simp [Pc.needsRepo] at h
+    · exact needsRepo_gcStart prog g h
+    · simp [Pc.needsRepo] at h
+  case iAddClose pend t f =>
+    unfold stepPc at h; simp only at h
+    cases pend with
+    | some l => exact absurd rfl (hpend l t f)
+    | none =>
+      simp only at h
+      split at h
+      · simp [Pc.needsRepo] at h
+      · split at h
+        · split at h
+          · exact needsRepo_gcStart prog g h
+          · simp at h
+        · simp at h
+  all_goals (exfalso; revert h; unfold stepPc; simp only)
+  all_goals (repeat' split)
+  all_goals first
+    | (intro h; simp only [needsRepo_afterShare, needsRepo_finishGc, needsRepo_gcPlan, needsRepo_gcNext] at h; cases h)
+    | (intro h; cases h)
+    | simp [Pc.needsRepo]
+
+theorem stepPc_needsRepo (H : Nat → Nat) (prog : Prog) (exO shO : Bool) (g : Store) (pc : Pc)
+    (hpc : pc.needsRepo = true → g.repo ≠ .absent)
+    (h : (stepPc H fx prog exO shO g pc).2.needsRepo = true) : (stepPc H fx prog exO shO g pc).1.repo ≠ .absent := by
+  by_cases hp : ∃ l t f, pc = .iAddClose (some l) t f
+  · obtain ⟨l, t, f, rfl⟩ := hp
+    unfold stepPc; simp only
+    repeat' split
+    all_goals simp
+  · exact stepPc_repo_na H fx prog exO shO g pc
+      (stepPc_needsRepo_old H prog exO shO g pc hpc (fun l t f e => hp ⟨l, t, f, e⟩) h)
+
+theorem repoNA_step (H : Nat → Nat) (s : St) (p : Pid) (h : RepoNA s) : RepoNA (step H fx s p) := by
+  rcases step_cases H fx s p with ⟨_, e⟩ | ⟨pr, hpr, e⟩
+  · rw [e]; exact h
+  · rw [e]
+    intro i pi hi hn
+    simp only at hi ⊢
+    rcases getElem?_set_cases hi with ⟨rfl, rfl, _⟩ | ⟨_, hi'⟩
+    · exact stepPc_needsRepo H pr.prog _ _ s.g pr.pc (h i pr hpr) hn
+    · exact stepPc_repo_na H fx pr.prog _ _ s.g pr.pc (h i pi hi' hn)
+
+theorem invFF_step (H : Nat → Nat) (s : St) (L : List (Bid × Nat)) (p : Pid) (inv : InvFF s L) (hna : RepoNA s) :
+    ∃ L', InvFF (step H fx s p) L' := by
+  have hmx := mutex_step H fx s p inv.mutex
+  rcases step_cases H fx s p with ⟨_, e⟩ | ⟨pr, hpr, e⟩
   · rw [e]; exact ⟨L, inv⟩
   · rw [e] at hmx ⊢
     clear e
     obtain ⟨hpff, hgwf, htmp⟩ := inv.pcs p pr hpr
-    have hrepoNA : s.g.repo ≠ .absent := by
-      rcases inv.repoOk with ⟨h, _⟩ | ⟨h, _⟩ <;> rw [h] <;> simp
     have hinfo : ∀ b d, s.g.final b = some d → ∃ m, d.info = some (.valid m) :=
       fun b d hd => let ⟨m, hm, _⟩ := inv.pkgs b d hd; ⟨m, hm⟩
     have hnoEX : othersAny Pc.holdsEX s.procs p = false →
         ∀ (i : Nat) (pi : Proc), s.procs[i]? = some pi → i ≠ p → pi.pc.holdsEX = false :=
       fun h i pi hi hip => othersAny_false.mp h i pi hi hip
-    have hvalid_of : othersAny Pc.holdsEX s.procs p = false → pr.pc.holdsEX = false → s.g.repo = .valid L := by
+    have hlog_of : othersAny Pc.holdsEX s.procs p = false → pr.pc.holdsEX = false → logicalOf s.g.repo = L := by
       intro h hp
       rcases inv.repoOk with ⟨hv, _⟩ | ⟨_, i, pi, hi, hrmi, _⟩
       · exact hv
@@ -455,10 +589,14 @@ theorem invFF_step (H : Nat → Nat) (s : St) (L : List (Bid × Nat)) (p : Pid) 
         have : i ≠ p := by
           intro e'; subst e'; rw [hpr] at hi; cases hi; rw [hp] at hex; cases hex
         rw [hnoEX h i pi hi this] at hex; cases hex
+    have hread_of : othersAny Pc.holdsEX s.procs p = false → (pr.pc = .iAddLock ∨ pr.pc = .gLock) →
+        readRepo fx s.g.repo = some L := by
+      intro h1 h3
+      have hn : s.g.repo ≠ .absent := hna p pr hpr (by rcases h3 with h | h <;> rw [h] <;> rfl)
+      rw [readRepo_fx hn, hlog_of h1 (by rcases h3 with h | h <;> rw [h] <;> rfl)]
     have hlock : othersAny Pc.holdsEX s.procs p = false → othersAny Pc.holdsSH s.procs p = false →
-        (pr.pc = .iAddLock ∨ pr.pc = .gLock) → ∃ l, s.g.repo = .valid l := by
-      intro h1 _ h3
-      exact ⟨L, hvalid_of h1 (by rcases h3 with h | h <;> rw [h] <;> rfl)⟩
+        (pr.pc = .iAddLock ∨ pr.pc = .gLock) → ∃ l, readRepo fx s.g.repo = some l :=
+      fun h1 _ h3 => ⟨L, hread_of h1 h3⟩
     have hrmL : ∀ rm, pr.pc.rmeta = some rm → rm = L := by
       intro rm hr
       rcases inv.repoOk with ⟨_, hall⟩ | ⟨_, i, pi, hi, hrmi, _⟩
@@ -472,53 +610,66 @@ theorem invFF_step (H : Nat → Nat) (s : St) (L : List (Bid × Nat)) (p : Pid) 
       subst this
       obtain ⟨d, _, hd, _⟩ := inv.recorded k sz hgwf.2.2.1
       rw [hd]; simp
-    have hnodup : ∀ l, s.g.repo = .valid l → (keys l).Nodup := by
+    have hmv : ∀ rm c rest t d te, pr.pc = .gMove rm (c :: rest) t d te → s.g.final c.bid ≠ none := by
+      intro rm c rest t d te hq
+      rw [hq] at hgwf
+      have : rm = L := hrmL rm (by rw [hq]; rfl)
+      subst this
+      obtain ⟨sz, hm⟩ := exists_of_mem_keys (hgwf.2.2 c (by simp))
+      obtain ⟨dd, _, hd, _⟩ := inv.recorded c.bid sz hm
+      rw [hd]; simp
+    have hnodup : ∀ l, readRepo fx s.g.repo = some l → (keys l).Nodup := by
       intro l hl
       rcases inv.repoOk with ⟨hv, _⟩ | ⟨ht, _⟩
-      · rw [hv] at hl; cases hl; exact inv.nodup
-      · rw [ht] at hl; cases hl
-    -- when p is in the exclusive section, nobody else is
+      · cases hr : s.g.repo with
+        | absent => rw [hr] at hl; cases hl
+        | torn => rw [hr] at hl; simp [readRepo] at hl; subst hl; simp [keys]
+        | valid l' =>
+          rw [hr] at hl hv; simp [readRepo] at hl; subst hl
+          simp [logicalOf] at hv; subst hv; exact inv.nodup
+      · rw [ht] at hl; simp [readRepo] at hl; subst hl; simp [keys]
     have hothersEX : pr.pc.holdsEX = true → ∀ (i : Nat) (pi : Proc) (rm : List (Bid × Nat)), i ≠ p →
         s.procs[i]? = some pi → pi.pc.rmeta = some rm → rm = L ∧ pi.pc.dirty = false := by
       intro hex i pi rm hip hi hr
       exact absurd (inv.mutex p i pr pi hpr hi hex (Or.inl (Pc.holdsEX_of_rmeta hr))).symm hip
     have hpcs' := And.intro
-      (stepPc_pcFF H pr.prog _ _ s.g pr.pc hpff hrepoNA hlock hinfo hscan)
-      (And.intro (stepPc_gcWf H true pr.prog (othersAny Pc.holdsEX s.procs p) (othersAny Pc.holdsSH s.procs p) s.g pr.pc hgwf hnodup)
-        (stepPc_tmpOk H true pr.prog (othersAny Pc.holdsEX s.procs p) (othersAny Pc.holdsSH s.procs p) s.g pr.pc))
+      (stepPc_pcFF H pr.prog _ _ s.g pr.pc hpff (fun hq => hna p pr hpr (by rw [hq]; rfl)) hlock hinfo hscan hmv)
+      (And.intro (stepPc_gcWf H fx pr.prog (othersAny Pc.holdsEX s.procs p) (othersAny Pc.holdsSH s.procs p) s.g pr.pc hgwf hnodup)
+        (stepPc_tmpOk H fx pr.prog (othersAny Pc.holdsEX s.procs p) (othersAny Pc.holdsSH s.procs p) s.g pr.pc))
     generalize hexO : othersAny Pc.holdsEX s.procs p = exO at *
     generalize hshO : othersAny Pc.holdsSH s.procs p = shO at *
-    generalize hstep : stepPc H true pr.prog exO shO s.g pr.pc = res at *
+    generalize hstep : stepPc H fx pr.prog exO shO s.g pr.pc = res at *
     -- 1. the publishing rename
     by_cases h1 : (∃ tmp, pr.pc = .iRename tmp) ∧ s.g.final (opBid pr.prog) = none
     · obtain ⟨⟨tmp, hq⟩, hnone⟩ := h1
-      rw [hq, stepPc_iRename_none H true pr.prog exO shO s.g tmp hnone] at hstep
+      rw [hq, stepPc_iRename_none H fx pr.prog exO shO s.g tmp hnone] at hstep
       subst hstep
       exact ⟨L, invFF_publish s L p pr tmp _ _ inv hpr hq hnone rfl rfl hmx⟩
     -- 2. __addPackage gets the lock
     by_cases h2 : pr.pc = .iAddLock ∧ exO = false ∧ shO = false
     · obtain ⟨hq, rfl, rfl⟩ := h2
-      have hv := hvalid_of rfl (by rw [hq]; rfl)
+      have hv := hread_of rfl (Or.inl hq)
       rw [hq, stepPc_iAddLock_ok H pr.prog s.g L hv] at hstep
       subst hstep
-      exact ⟨_, invFF_add s L p pr _ _ _ inv hpr hq (hnoEX rfl) rfl
+      exact ⟨_, invFF_add s L p pr _ _ _ inv hpr hq (hnoEX rfl) rfl (hna p pr hpr (by rw [hq]; rfl))
         (fun l hl => by rw [hv] at hl; cases hl; rfl) ⟨⟨rfl, rfl⟩, trivial, trivial⟩ rfl rfl hmx⟩
     -- 3. gc gets the lock
     by_cases h3 : pr.pc = .gLock ∧ exO = false ∧ shO = false
     · obtain ⟨hq, rfl, rfl⟩ := h3
-      have hv := hvalid_of rfl (by rw [hq]; rfl)
-      rw [hq, stepPc_gLock_ok H true pr.prog s.g L hv] at hstep
+      have hv := hread_of rfl (Or.inr hq)
+      have hlg := hlog_of rfl (by rw [hq]; rfl)
+      rw [hq, stepPc_gLock_ok H fx pr.prog s.g L hv] at hstep
       subst hstep
       have hall : ∀ (i : Nat) (pi : Proc) (rm : List (Bid × Nat)), i ≠ p → s.procs[i]? = some pi →
           pi.pc.rmeta = some rm → rm = L ∧ pi.pc.dirty = false := by
         intro i pi rm hip hi hr
         have := Pc.holdsEX_of_rmeta hr
         rw [hnoEX rfl i pi hi hip] at this; cases this
-      refine ⟨L, invFF_gc_quiet s L p pr _ _ _ inv hpr (by simp) (by simp; exact hv) hall
+      refine ⟨L, invFF_gc_quiet s L p pr _ _ _ inv hpr (by simp) (by simp; exact hlg) hall
         (fun rm hr => rmeta_gcNext _ _ _ _ _ _ rm hr) (by rw [hq]; rfl) (by simp) hpcs' hmx⟩
     -- 4. scanning
     by_cases h4 : (∃ rm todo c t, pr.pc = .gScanOpen rm todo c t) ∨ (∃ rm k sz rest c t, pr.pc = .gScanLock rm k sz rest c t)
-    · have hfst : res.1 = s.g := by rw [← hstep]; exact stepPc_scan_fst H true pr.prog exO shO s.g pr.pc h4
+    · have hfst : res.1 = s.g := by rw [← hstep]; exact stepPc_scan_fst H fx pr.prog exO shO s.g pr.pc h4
       have hex : pr.pc.holdsEX = true := by
         rcases h4 with ⟨_, _, _, _, hq⟩ | ⟨_, _, _, _, _, _, hq⟩ <;> rw [hq] <;> rfl
       have hnd : pr.pc.dirty = false := by
@@ -528,7 +679,7 @@ theorem invFF_step (H : Nat → Nat) (s : St) (L : List (Bid × Nat)) (p : Pid) 
         rcases h4 with ⟨_, _, _, _, hq⟩ | ⟨_, _, _, _, _, _, hq⟩ <;> rw [hq] at hh <;> cases hh
       obtain ⟨rm, hrm⟩ : ∃ rm, pr.pc.rmeta = some rm := by
         rcases h4 with ⟨rm, _, _, _, hq⟩ | ⟨rm, _, _, _, _, _, hq⟩ <;> exact ⟨rm, by rw [hq]; rfl⟩
-      have hv : s.g.repo = .valid L := by
+      have hv : logicalOf s.g.repo = L := by
         rcases inv.repoOk with ⟨hv, _⟩ | ⟨_, i, pi, hi, hrmi, hdi⟩
         · exact hv
         · exfalso
@@ -542,13 +693,13 @@ theorem invFF_step (H : Nat → Nat) (s : St) (L : List (Bid × Nat)) (p : Pid) 
         | true =>
           exfalso
           rw [← hstep] at hh
-          obtain ⟨⟨tmp, hq⟩, _⟩ := stepPc_inWindow_enter H true pr.prog exO shO s.g pr.pc hh hw
+          obtain ⟨⟨tmp, hq⟩, _⟩ := stepPc_inWindow_enter H fx pr.prog exO shO s.g pr.pc hh hw
           rw [hq] at hex; cases hex
       refine ⟨L, invFF_gc_quiet s L p pr _ _ _ inv hpr (by rw [hfst]) (by rw [hfst]; exact hv) (hothersEX hex)
         ?_ hw hw' hpcs' hmx⟩
       intro rm' hr'
       rw [← hstep] at hr' ⊢
-      have := stepPc_scan_rmeta H true pr.prog exO shO s.g pr.pc rm hrm hnm rm' hr'
+      have := stepPc_scan_rmeta H fx pr.prog exO shO s.g pr.pc rm hrm hnm rm' hr'
       exact ⟨by rw [this.1]; exact hrmL rm hrm, this.2⟩
     -- 5. moving
     by_cases h5 : ∃ rm plan t d te, pr.pc = .gMove rm plan t d te
@@ -557,8 +708,8 @@ theorem invFF_step (H : Nat → Nat) (s : St) (L : List (Bid × Nat)) (p : Pid) 
       have hrm : rm = L := hrmL rm (by rw [hq]; rfl)
       subst hrm
       rw [hq] at hgwf
-      by_cases hmv : ∃ c rest dd, plan = c :: rest ∧ s.g.final c.bid = some dd
-      · obtain ⟨c, rest, dd, rfl, hf⟩ := hmv
+      by_cases hmvc : ∃ c rest dd, plan = c :: rest ∧ s.g.final c.bid = some dd
+      · obtain ⟨c, rest, dd, rfl, hf⟩ := hmvc
         obtain ⟨hfin, hor⟩ := stepPc_gMove_move H pr.prog exO shO s.g rm c rest t d te dd hf
         rw [hq] at hstep
         rw [hstep] at hfin hor
@@ -572,11 +723,11 @@ theorem invFF_step (H : Nat → Nat) (s : St) (L : List (Bid × Nat)) (p : Pid) 
           intro c rest hpl
           cases hh : s.g.final c.bid with
           | none => rfl
-          | some dd => exact absurd ⟨c, rest, dd, hpl, hh⟩ hmv
+          | some dd => exact absurd ⟨c, rest, dd, hpl, hh⟩ hmvc
         obtain ⟨hfin, hrepo, r, hp'⟩ := stepPc_gMove_leave H pr.prog exO shO s.g rm plan t d te hf
         rw [hq] at hstep
         rw [hstep] at hfin hrepo hp'
-        have hv : res.1.repo = .valid rm := by
+        have hv : logicalOf res.1.repo = rm := by
           rw [hrepo]
           cases d with
           | true => rfl
@@ -603,15 +754,16 @@ theorem invFF_step (H : Nat → Nat) (s : St) (L : List (Bid × Nat)) (p : Pid) 
         cases hex : exO <;> cases hsh : shO <;> simp
         exact h3 ⟨hq, hex, hsh⟩
       have hnEX' : res.2.holdsEX = false := by
-        rw [← hstep]; exact stepPc_notEX H true pr.prog exO shO s.g pr.pc hnEX hblk
-      have hrepo : res.1.repo = s.g.repo := by
+        rw [← hstep]; exact stepPc_notEX H fx pr.prog exO shO s.g pr.pc hnEX hblk
+      have hrepo : res.1.repo = s.g.repo ∨ (s.g.repo = .absent ∧ res.1.repo = .torn) := by
         rw [← hstep]
-        rcases stepPc_repo H true pr.prog exO shO s.g pr.pc with h | ⟨hq, hx, hy, _⟩ | ⟨hq, _⟩ | hq | ⟨l, t, f, hq⟩ |
-            ⟨l, r, hq⟩ | ⟨rm, plan, t, d, te, hq⟩
-        · exact h
+        rcases stepPc_repo H fx pr.prog exO shO s.g pr.pc with h | ⟨hq, hx, hy, _⟩ | ⟨hq, _⟩ | hq | ⟨_, ha, _, ht⟩ |
+            ⟨l, t, f, hq⟩ | ⟨l, r, hq⟩ | ⟨rm, plan, t, d, te, hq⟩
+        · exact Or.inl h
         · exact absurd ⟨hq, hx, hy⟩ h2
         · rw [hq] at hpff; exact absurd hpff (by simp [PcFF])
         · rw [hq] at hpff; exact absurd hpff (by simp [PcFF])
+        · exact Or.inr ⟨ha, ht⟩
         · rw [hq] at hpff; have := hpff.1; cases this
         · rw [hq] at hpff; have := hpff.1; cases this
         · exact absurd ⟨rm, plan, t, d, te, hq⟩ h5
@@ -623,7 +775,7 @@ theorem invFF_step (H : Nat → Nat) (s : St) (L : List (Bid × Nat)) (p : Pid) 
       have hwin : res.2.inWindow = pr.pc.inWindow := by
         cases hw : pr.pc.inWindow with
         | true =>
-          rcases stepPc_inWindow_stay H true pr.prog exO shO s.g pr.pc hw with h | ⟨hq | hq, hx, hy⟩
+          rcases stepPc_inWindow_stay H fx pr.prog exO shO s.g pr.pc hw with h | ⟨hq | hq, hx, hy⟩
           · rw [← hstep]; exact h
           · exact absurd ⟨hq, hx, hy⟩ h2
           · rw [hq] at hpff; exact absurd hpff (by simp [PcFF])
@@ -633,7 +785,7 @@ theorem invFF_step (H : Nat → Nat) (s : St) (L : List (Bid × Nat)) (p : Pid) 
           | true =>
             exfalso
             rw [← hstep] at hh
-            exact h1 (stepPc_inWindow_enter H true pr.prog exO shO s.g pr.pc hh hw)
+            exact h1 (stepPc_inWindow_enter H fx pr.prog exO shO s.g pr.pc hh hw)
       exact ⟨L, invFF_silent s L p pr _ _ _ inv hpr hmx hrepo hfin (Pc.rmeta_of_notEX hnEX)
         (Pc.rmeta_of_notEX hnEX') hwin hpcs'⟩
 
